@@ -526,3 +526,30 @@ func mustStore(f *ssa.Function, sts []*ssa.Store) bool {
 	}
 	return true
 }
+
+// EdgeMustReach reports whether every path that takes the edge
+// b→b.Succs[succ] executes target before any normal return of the function
+// (i.e. no additional condition decides whether target runs).
+func EdgeMustReach(b *ssa.BasicBlock, succ int, target ssa.Instruction) bool {
+	v := Walk(Loc{B: b.Succs[succ], Idx: 0}, func(in ssa.Instruction) bool { return in == target }, nil)
+	for _, r := range Returns(b.Parent()) {
+		if v[r] {
+			return false
+		}
+	}
+	return true
+}
+
+// GuardedExactlyBy: target is dominated by an edge satisfying pred, and taking
+// that edge makes target unavoidable (no further condition in between).
+func GuardedExactlyBy(target ssa.Instruction, pred func(Fact) bool) bool {
+	for _, ef := range EdgeFactsOf(target.Parent()) {
+		if ef.B.Succs[0] == ef.B.Succs[1] || !pred(ef.Fact) {
+			continue
+		}
+		if EdgeDominates(ef.B, ef.Succ, target) && EdgeMustReach(ef.B, ef.Succ, target) {
+			return true
+		}
+	}
+	return false
+}
